@@ -42,7 +42,8 @@ class LuceneCheck:
     invalid_term_chars_re = re.compile(r"[+/-]")
 
     SIMPLE_EXPR_FIELDS = (
-        tree.Boost, tree.Proximity, tree.Fuzzy, tree.Word, tree.Phrase)
+        tree.Boost, tree.Proximity, tree.Fuzzy, tree.Word, tree.Phrase,
+        tree.Regex, tree.Range, tree.From, tree.To)
 
     FIELD_EXPR_FIELDS = tuple(list(SIMPLE_EXPR_FIELDS) + [tree.FieldGroup])
 
